@@ -105,6 +105,14 @@ def l1d_case(arg):
             x = out.pop()
             src.tell(x, f(x))
     src.remove_unfinished()
+    if rng.random() < 0.25 and src.data:
+        # two evaluated neighbours 1-3 ulp apart, as a run that homes in on a discontinuity produces
+        x0 = rng.choice(list(src.data))
+        x1 = x0
+        for _ in range(rng.choice([1, 2, 3])):
+            x1 = math.nextafter(x1, hi if x0 < hi else lo)
+        if lo <= x1 <= hi and x1 not in src.data:
+            src.tell(x1, f(x1))
     data = list(src.data.items())
     pend = []
     if rng.random() < 0.5 and lo in src.data and hi in src.data:
@@ -114,13 +122,15 @@ def l1d_case(arg):
 
     resumed = rng.random() < 0.3   # a learner resumed after a cancelled run: pending marks, then remove_unfinished
 
-    def build(order, mode):
+    def build(order, mode, plain=False):
         l = mk(lossn, bounds, f, factor)
-        if resumed and len(order) >= 2:
+        if resumed and not plain and len(order) >= 2:
             for x, y in order[:2]:
                 l.tell(x, y)
-            for p in pend or [lo + (hi - lo) * 0.37]:
+            for p in (pend or [lo + (hi - lo) * 0.37]) + [b_ for b_ in (lo, hi) if b_ not in dict(order[:2])][:1]:
                 l.tell_pending(p)
+            l.loss()                            # (a runner's goal looks at the loss while points are outstanding)
+            l.ask(1, tell_pending=False)
             l.remove_unfinished()
         if pend and mode == "pend_first":
             for p in pend:
@@ -138,7 +148,7 @@ def l1d_case(arg):
         return l
 
     res["resumed"] = resumed
-    ref = build(data, "single")
+    ref = build(data, "single", plain=True)
     perms = list(itertools.permutations(data)) if len(data) <= 5 else [rng.sample(data, len(data)) for _ in range(6)]
     for perm in perms:
         for mode in ("single", "pend_first"):
